@@ -450,10 +450,11 @@ def wNotAtomic : List Op :=
 example : run [] wNotAtomic ≠ Spec.run [] wNotAtomic := by decide
 example : devRun [] wNotAtomic = ["defineProperties_not_atomic"] := by decide
 
-/-- `defineProperty(o,'a',{get:undefined})` then getOwnPropertyDescriptor has no get/set keys -/
+/-- `defineProperty(o,'a',{get:undefined})`: the former region `accessor_both_undefined` is closed by
+    fix f48e83f (fromPropertyDescriptor decides by the stored value) – model = spec, no region. -/
 def wBothUndef : List Op := [.create none [], .defn 0 0 (.obj { dE with g := .undef })]
-example : run [] wBothUndef ≠ Spec.run [] wBothUndef := by decide
-example : devRun [] wBothUndef = ["accessor_both_undefined"] := by decide
+example : run [] wBothUndef = Spec.run [] wBothUndef := by decide
+example : devRun [] wBothUndef = [] := by decide
 
 /-- `p={a:1}; c=Object.create(p); c.a=2; for (k in c)` enumerates `a` twice -/
 def wForIn : List Op := [.create none [], .put false 0 0 4, .create (some 0) [], .put false 1 0 5]
